@@ -213,11 +213,11 @@ def vacuity_guard(rep, obls):
         k = tuple(h.get_id() for h in o.hyps)
         if k in memo:
             return memo[k]
-        s = z3.Solver(); s.set('timeout', 1500)
+        s = z3.Solver(); s.set('timeout', 400)
         s.add([h for h in o.hyps if not _has_q(h)])
         r = s.check()
         if r != z3.unsat:
-            s2 = z3.Solver(); s2.set('timeout', 1000); s2.add(o.hyps)
+            s2 = z3.Solver(); s2.set('timeout', 600); s2.add(o.hyps)
             r = s2.check()
         memo[k] = (r != z3.unsat)
         return memo[k]
@@ -236,7 +236,9 @@ def finish(rep, obls, pf, technique, assumptions=()):
     pf.discharge(obls)
     pf.discharge(rep.covers)
     try:
+        _t = time.time()
         vacuity_guard(rep, obls)
+        rep.extra['vacuity_guard_seconds'] = round(time.time() - _t, 1)
     except Exception as ex:
         rep.notes.append('vacuity guard failed: %r' % (ex,))
     rep.obls = obls
